@@ -61,6 +61,13 @@ fn install_quiet_panic_hook() {
     let loud = std::env::var("VERIF_LOUD").is_ok();
     let default_hook = std::panic::take_hook();
     std::panic::set_hook(Box::new(move |info| {
+        if let Some(loc) = info.location() {
+            let _ = hsys::LAST_PANIC_LOC.try_with(|l| {
+                if let Ok(mut l) = l.try_borrow_mut() {
+                    *l = format!("{}:{}", loc.file(), loc.line());
+                }
+            });
+        }
         if let Some(l) = hsys::lane_of_current_thread() {
             hsys::PANIC_EPOCH[l].fetch_add(1, std::sync::atomic::Ordering::SeqCst);
         }
